@@ -4,7 +4,7 @@
 # stores it under /verif/seeded/<CNN>-<suffix>/ and runs the given checks against it on a scratch copy.
 set -u
 id=$1; suf=$2; shift 2
-WT=/tmp/seed-$id; OUT=/tmp/seed-$id-out
+PFX=${SEED_PREFIX:-seed}; WT=/tmp/$PFX-$id; OUT=/tmp/$PFX-$id-out
 ID=$(echo $id | tr a-z A-Z)
 DST=/verif/seeded/$ID-$suf
 mkdir -p $DST
